@@ -70,10 +70,14 @@ func vParseChunks(s string) [][]byte {
 	return out
 }
 
-type vFrameHandler struct{ msgs []string }
+type vFrameHandler struct {
+	msgs []string
+	kept []RawMessage // the slices themselves: the processor keeps them (FlatTxn) after HandleMessage returns
+}
 
 func (h *vFrameHandler) HandleMessage(m RawMessage) ([]byte, error) {
 	h.msgs = append(h.msgs, fmt.Sprintf("%d:%s", uint32(m.Type), vHex(m.Bytes)))
+	h.kept = append(h.kept, m)
 	if len(m.Bytes) > 0 && m.Bytes[0]%2 == 0 {
 		r := make([]byte, len(m.Bytes))
 		for i, b := range m.Bytes {
@@ -127,7 +131,11 @@ func vFrameOp(t []string) string {
 	case "serve":
 		h := &vFrameHandler{}
 		serve(conn, h)
-		return fmt.Sprintf("msgs=%s written=%s", vMsgs(h.msgs), vHex(conn.written))
+		var again []string
+		for _, m := range h.kept {
+			again = append(again, fmt.Sprintf("%d:%s", uint32(m.Type), vHex(m.Bytes)))
+		}
+		return fmt.Sprintf("msgs=%s written=%s retained=%s", vMsgs(h.msgs), vHex(conn.written), vMsgs(again))
 	}
 	return "bad-op"
 }
